@@ -164,7 +164,7 @@ class CorpusHarness(Harness):
     def setup(self, prop, tier):
         self.scratch = tempfile.mkdtemp(prefix="esrally-verif-c14-")
         self.large_doc = make_doc(LARGE_LINES, False, large=True)
-        for fmt in (".gz", ".zst", ".bz2"):
+        for fmt in ((".gz", ".zst", ".bz2") if tier == "quick" else [f for f in FORMATS if f]):
             self.large_archives[fmt] = make_archive(fmt, "documents.json", self.large_doc)
 
     def teardown(self):
@@ -252,6 +252,8 @@ class CorpusHarness(Harness):
             doc_name = "documents.json"
             content = self.large_doc if cfg["large"] else make_doc(cfg["docs"], cfg["meta"])
             if fmt:
+                if cfg["large"] and fmt not in self.large_archives:
+                    self.large_archives[fmt] = make_archive(fmt, "documents.json", self.large_doc)
                 archive = self.large_archives[fmt] if cfg["large"] else make_archive(fmt, doc_name, content)
                 arch_name = doc_name + fmt
             else:
